@@ -195,8 +195,14 @@ def _record(t, f, tag, rid):
             if abs(k - 70.0) < 1e-3:
                 return None
             bend[i] = int(k > 70.0)
-    full = md.compute_dssp(t[f], simplified=False)[0]
-    simp = md.compute_dssp(t[f], simplified=True)[0]
+    if t.n_frames > 1:
+        # the frame is evaluated INSIDE a multi-frame call (cached per trajectory): its codes follow from its own backbone only
+        if getattr(t, "_vp_dssp", None) is None:
+            t._vp_dssp = (md.compute_dssp(t, simplified=False), md.compute_dssp(t, simplified=True))
+        full, simp = t._vp_dssp[0][f], t._vp_dssp[1][f]
+    else:
+        full = md.compute_dssp(t[f], simplified=False)[0]
+        simp = md.compute_dssp(t[f], simplified=True)[0]
     return dict(id=rid, tag=tag, n=n, chain=chain, skip=[int(not p) for p in isprot], hb=hb, bend=bend,
                 codes=[str(c) for c in full], simplified=[str(c) for c in simp])
 
@@ -217,6 +223,17 @@ def _gen(task):
                 r = _record(v, 0, "%s#%d/%s" % (fn, f, tag), rid)
             except Exception as e:  # noqa
                 r = dict(id=rid, tag="%s#%d/%s" % (fn, f, tag), error="%s: %s" % (type(e).__name__, str(e)[:200]))
+            rid += 1
+            if r is not None:
+                recs.append(r)
+    if t.n_frames > 1:
+        # frames evaluated inside ONE multi-frame call (what compute_dssp is normally used for)
+        tm = t[:min(t.n_frames, 5)]
+        for f in range(1, tm.n_frames):
+            try:
+                r = _record(tm, f, "%s#%d/in a %d-frame call" % (fn, f, tm.n_frames), rid)
+            except Exception as e:  # noqa
+                r = dict(id=rid, tag="%s#%d/multi" % (fn, f), error="%s: %s" % (type(e).__name__, str(e)[:200]))
             rid += 1
             if r is not None:
                 recs.append(r)
